@@ -527,6 +527,49 @@ def u17(led, rid, ctx):
                   % (m, norm.get(m), w[1]))
 
 
+def u22(led, rid, ctx):
+    """when recursive minimisation is off, the first semantic pass merges the two halves of an
+    equality (the final merging pass only exists on the minimising branch)"""
+    lib = ctx.lib
+    f = lib.method("ResolutionResolver", "extract_final_nogood")
+    n = 0
+    ok = False
+    for bb, i, st in aggregates(f, "Mode", "EnableEqualityMerging"):
+        n += 1
+        for fa in guards_of(f, bb):
+            a = peel(fa.atom, calls=None) if fa.kind == "bool" else None
+            if a is None:
+                continue
+            neg = False
+            while a.k == "unop" and a.a == "Not":
+                a = peel(a.b, calls=None)
+                neg = not neg
+            if "should_minimise" in a.fields():
+                truth = fa.val if not neg else (not fa.val)
+                if truth is False or truth == 0:
+                    ok = True
+    led.check(ok, rid, "first-pass-merges-equalities-when-not-minimising", f.span,
+              "Mode::EnableEqualityMerging on the !should_minimise edge",
+              "extract_final_nogood never merges [x >= v] and [x <= v] when minimisation is off: the learned "
+              "nogood keeps both halves of an equality decision, its backjump level equals the current level "
+              "and the solver asserts (or loses solutions) only under that option")
+    led.floor(rid, "constructions of Mode::EnableEqualityMerging", n, 2)
+
+
+def u23(led, rid, ctx):
+    """conflict resolution always hands the solver back in the Solving state (MUST-PASS), whether or
+    not a nogood was learned"""
+    lib = ctx.lib
+    f = lib.method("ConstraintSatisfactionSolver", "resolve_conflict_with_nogood")
+    cfg = f.cfg
+    ds = f.calls_named("declare_solving")
+    ok = bool(ds) and all(any(cfg.dominates(c.bb, r) for c in ds) for r in cfg.returns)
+    led.check(ok, rid, "resolve_conflict_with_nogood:declares-solving", f.span, "declare_solving dominates every return",
+              "resolve_conflict_with_nogood can return without state.declare_solving(): with a resolver that "
+              "learns nothing the state stays Conflict, the stale conflict is resolved again level by level and "
+              "a satisfiable model is reported unsatisfiable")
+
+
 def run(ctx, led):
     run_rule(led, "U1", "Infeasible is declared only for a conflict at decision level 0", u1, ctx)
     run_rule(led, "U2", "no fabricated reason reference; None reason only for decisions, assumptions, "
@@ -559,3 +602,7 @@ def run(ctx, led):
     run_rule(led, "U19", "semantic minimiser: the emitted predicates describe the record exactly relative to the root domain; holes leave the bounds before redundant holes are dropped", minimiser.emission_exact, ctx)
     from . import C07 as _C07b
     run_rule(led, "U20", "a permanent nogood (blocking clause) is stored in its preprocessed form (shared with C07-J10)", _C07b.j10, ctx)
+    from . import C09 as _C09r
+    run_rule(led, "U21", "lazy reasons of reified propagators keep the reification literal (shared with C09-R7)", _C09r.r7, ctx)
+    run_rule(led, "U22", "equality halves are merged in the first semantic pass when minimisation is off", u22, ctx)
+    run_rule(led, "U23", "conflict resolution always returns in the Solving state (MUST-PASS)", u23, ctx)
